@@ -52,15 +52,21 @@ def tps_to_coq(xs):
 
 def rcase_to_coq(c):
     names = coq_list([coq_str(bytes.fromhex(h)) for h in c["names_hex"]])
-    pols = coq_list(["(%d, WPolicy (%s) %s)" % (p["id"], entry_to_coq(p), ids(p["dcs"])) for p in (c["pols"] or [])])
-    roles = coq_list(["(%d, WRole %s %s %s %s)" % (r["id"], ids(r["pols"]), sis_to_coq(r["sis"]), nis_to_coq(r["nis"]), tps_to_coq(r.get("tps"))) for r in (c["roles"] or [])])
     synth = c["synth"] or []
     ssvc = coq_list(["(%d, %s)" % (s["name"], entry_to_coq(s)) for s in synth if s["kind"] == "svc"])
     snode = coq_list(["(%d, %s)" % (s["name"], entry_to_coq(s)) for s in synth if s["kind"] == "node"])
     stp = coq_list(["((%d, %d), %s)" % (int(s["kind"][2:]), s["name"], entry_to_coq(s)) for s in synth if s["kind"].startswith("tp")])
-    toks = coq_list(["WToken %s %s %s %s %s" % (ids(t["pols"]), ids(t["roles"]), sis_to_coq(t["sis"]), nis_to_coq(t["nis"]), tps_to_coq(t.get("tps"))) for t in c["toks"]])
-    steps = coq_list(["RStep %d %s" % (s["tok"], "None" if s["err"] else '(Some "%s"%%string)' % s["expect"]) for s in c["steps"]])
-    return "ResolverCase (RCase %s\n   (World %d %s\n    %s\n    %s\n    %s\n    %s)\n   %s\n   %s)" % (names, c["dc"], pols, roles, ssvc, snode, stp, toks, steps)
+
+    def world(w):
+        pols = coq_list(["(%d, WPolicy (%s) %s)" % (p["id"], entry_to_coq(p), ids(p["dcs"])) for p in (w["pols"] or [])])
+        roles = coq_list(["(%d, WRole %s %s %s %s)" % (r["id"], ids(r["pols"]), sis_to_coq(r["sis"]), nis_to_coq(r["nis"]), tps_to_coq(r.get("tps"))) for r in (w["roles"] or [])])
+        toks = coq_list(["WToken %s %s %s %s %s" % (ids(t["pols"]), ids(t["roles"]), sis_to_coq(t["sis"]), nis_to_coq(t["nis"]), tps_to_coq(t.get("tps"))) for t in (w["toks"] or [])])
+        return "(World %d %s\n    %s\n    synth_svc synth_node synth_tp,\n    %s)" % (c["dc"], pols, roles, toks)
+
+    worlds = coq_list([world(w) for w in [c] + (c.get("later") or [])])
+    steps = coq_list(["RStep %d %d %s" % (s.get("w", 0), s["tok"], "None" if s["err"] else '(Some "%s"%%string)' % s["expect"]) for s in c["steps"]])
+    return ("ResolverCase (let synth_svc := %s in let synth_node := %s in let synth_tp := %s in\n   RCase %s %s\n   %s\n   %s)"
+            % (ssvc, snode, stp, names, "allow_all" if c.get("default_allow") else "deny_all", worlds, steps))
 
 
 def any_to_coq(c):
@@ -109,12 +115,12 @@ def signature(c):
 def slim(c):
     """the part of a case needed to replay it (build/bin/acl -replay reads {"case": ...})"""
     return {"stream": c["stream"], "names_hex": c["names_hex"], "cache": c["cache"],
-            "pool": [{k: e[k] for k in ("id", "idx", "pol", "hcl") + (("raw",) if e.get("raw") else ())} for e in c["pool"]],
+            "pool": [{k: e[k] for k in ("id", "idx", "pol", "hcl") + tuple(x for x in ("raw", "name", "desc") if e.get(x))} for e in c["pool"]],
             "toks": [{"idx": t["idx"]} for t in c["toks"]]}
 
 
 def slim_r(c):
-    return {k: c[k] for k in ("stream", "names_hex", "dc", "pols", "roles", "toks")} | {"steps": [{"tok": s["tok"]} for s in c["steps"]]}
+    return {k: c.get(k) for k in ("stream", "names_hex", "dc", "default_allow", "cache", "pols", "roles", "toks", "later")} | {"steps": [{"w": s.get("w", 0), "tok": s["tok"]} for s in c["steps"]]}
 
 
 def describe_r(c):
@@ -124,11 +130,18 @@ def describe_r(c):
     ni = lambda xs: ["node %s@dc%d" % (svc[x["name"]], x["dc"]) for x in (xs or [])]
     tmpl = ["builtin/service", "builtin/node", "builtin/dns"]
     tp = lambda xs: ["%s%s@%s" % (tmpl[x["tmpl"]], "" if x["tmpl"] == 2 else "(" + svc[x["name"]] + ")", ",".join("dc%d" % d for d in (x["dcs"] or [])) or "all") for x in (xs or [])]
-    return {"datacenter": "dc%d" % c["dc"],
-            "policies": {p["id"]: {"rules": p["hcl"], "datacenters": ["dc%d" % d for d in (p["dcs"] or [])]} for p in (c["pols"] or [])},
-            "roles": {r["id"]: {"policies": r["pols"], "identities": si(r["sis"]) + ni(r["nis"]) + tp(r.get("tps"))} for r in (c["roles"] or [])},
-            "tokens": {t["id"]: {"policies": t["pols"], "roles": t["roles"], "identities": si(t["sis"]) + ni(t["nis"]) + tp(t.get("tps"))} for t in (c["toks"] or [])},
-            "resolved_in_order": [c["toks"][s["tok"]]["id"] for s in c["steps"]]}
+    def world(w):
+        return {"policies": {p["id"]: {"rules": p["hcl"], "version": p["idx"], "datacenters": ["dc%d" % d for d in (p["dcs"] or [])]} for p in (w["pols"] or [])},
+                "roles": {r["id"]: {"policies": r["pols"], "identities": si(r["sis"]) + ni(r["nis"]) + tp(r.get("tps"))} for r in (w["roles"] or [])},
+                "tokens": {t["id"]: {"policies": t["pols"], "roles": t["roles"], "identities": si(t["sis"]) + ni(t["nis"]) + tp(t.get("tps"))} for t in (w["toks"] or [])}}
+    worlds = [c] + (c.get("later") or [])
+    out = {"datacenter": "dc%d" % c["dc"], "default_policy": "allow" if c.get("default_allow") else "deny",
+           "resolved_in_order": [{"world": s.get("w", 0), "token": worlds[s.get("w", 0)]["toks"][s["tok"]]["id"]} for s in c["steps"]]}
+    if len(worlds) == 1:
+        out.update(world(c))
+    else:
+        out["worlds"] = [world(w) for w in worlds]
+    return out
 
 
 def run(ctx):
@@ -264,7 +277,12 @@ def run(ctx):
         "resolver_tokens_with_2plus_roles": sum(1 for c in rcases for t in c["toks"] if len(t["roles"] or []) > 1),
         "resolver_identity_histogram": {"service_identities": sum(len(r["sis"] or []) for c in rcases for r in c["roles"]) + sum(len(t["sis"] or []) for c in rcases for t in c["toks"]),
                                         "node_identities": sum(len(r["nis"] or []) for c in rcases for r in c["roles"]) + sum(len(t["nis"] or []) for c in rcases for t in c["toks"]),
+                                        "templated_policies": sum(len(r.get("tps") or []) for c in rcases for r in c["roles"]) + sum(len(t.get("tps") or []) for c in rcases for t in c["toks"]),
                                         "scoped_policies": sum(1 for c in rcases for p in c["pols"] if p["dcs"])},
+        "resolver_cases_with_store_writes": sum(1 for c in rcases if c.get("later")),
+        "resolver_datacenter_histogram": dict(collections.Counter("dc%d" % c["dc"] for c in rcases)),
+        "resolver_default_allow_cases": sum(1 for c in rcases if c.get("default_allow")),
+        "resolver_small_cache_cases": sum(1 for c in rcases if c.get("cache")),
         "tokens_resolved": tokens,
         "compile_errors_observed": errors,
         "streams": dict(streams),
